@@ -152,3 +152,22 @@ pub fn bad_reslice_from_pos(buf: &[u8], pos: usize) -> u8 { if pos <= buf.len() 
 pub fn ok_position(buf: &[u8]) -> u8 { match buf.iter().position(|c| *c == b'\n') { Some(p) => buf[p], None => 0 } }
 pub fn bad_position_plus_one(buf: &[u8]) -> u8 { match buf.iter().position(|c| *c == b'\n') { Some(p) => buf[p + 1], None => 0 } }
 pub fn bad_position_other(buf: &[u8], other: &[u8]) -> u8 { match buf.iter().position(|c| *c == b'\n') { Some(p) => other[p], None => 0 } }
+
+// ---- accessor summaries: `len()` is the length of what the type's slice view returns only when both read the same field
+pub struct Wrap(Vec<u8>);
+impl Wrap { pub fn len(&self) -> usize { self.0.len() } }
+impl AsRef<[u8]> for Wrap { fn as_ref(&self) -> &[u8] { &self.0 } }
+pub fn ok_len_accessor_is_view_len(w: &Wrap) -> u8 { if w.len() == 33 { w.as_ref()[0] } else { 0 } }
+pub fn bad_len_accessor_weak(w: &Wrap) -> u8 { if w.len() <= 33 { w.as_ref()[0] } else { 0 } }
+pub struct Two { a: Vec<u8>, b: Vec<u8> }
+impl Two { pub fn len(&self) -> usize { self.a.len() } pub fn new(a: Vec<u8>, b: Vec<u8>) -> Self { Two { a, b } } }
+impl AsRef<[u8]> for Two { fn as_ref(&self) -> &[u8] { &self.b } }
+pub fn bad_len_accessor_other_field(w: &Two) -> u8 { if w.len() == 33 { w.as_ref()[0] } else { 0 } }
+pub struct Off(Vec<u8>);
+impl Off { pub fn len(&self) -> usize { self.0.len() + 1 } }
+impl AsRef<[u8]> for Off { fn as_ref(&self) -> &[u8] { &self.0 } }
+pub fn bad_len_accessor_computed(w: &Off) -> u8 { if w.len() == 1 { w.as_ref()[0] } else { 0 } }
+pub struct Tail(Vec<u8>);
+impl Tail { pub fn len(&self) -> usize { self.0.len() } }
+impl AsRef<[u8]> for Tail { fn as_ref(&self) -> &[u8] { &self.0[1..] } }
+pub fn bad_len_accessor_view_is_part(w: &Tail) -> u8 { if w.len() == 1 { w.as_ref()[0] } else { 0 } }
